@@ -1,7 +1,7 @@
 # Core analyses over the MIR fact files: CFG, dominators, origin expressions.
 import json, os, sys, functools, collections
 
-FACTS_DIR = os.environ.get("FACTS", "/root/scratch/proto/facts")
+FACTS_DIR = os.environ.get("FACTS", "")
 CRATES = ["renet", "renetcode", "renet_netcode"]
 
 PANIC_CALLEES = ("core::panicking::", "std::rt::panic", "std::rt::begin_panic", "core::option::unwrap_failed",
